@@ -117,7 +117,7 @@ fn content_sig(nd: &XmlNode) -> Result<J, String> {
             XmlNode::ExpandedText(t) => Some(t.data().map_err(e)?),
             // a reference denotes its replacement text (a re-parse turns "&gt;" into a reference node, the DOM had
             // a character): character data is compared as characters
-            XmlNode::EntityReference(r) => Some(r.node_value().map_err(e)?.unwrap_or_default()),
+            XmlNode::EntityReference(r) => Some(r.value().map_err(e)?),
             _ => None,
         };
         if let Some(s) = chars {
